@@ -82,7 +82,7 @@ func init() {
 func init() {
 	register(&propDef{
 		id:          "C07",
-		explanation: "Decides structural clauses of C07 for every D entry point (enumerated by type): (prec) the precision that reaches math.Pow(10,p) is the caller's value unmodified (a constant 2 only when the optional argument is absent) and a [-8,8] range check with the ErrPrecisionRange panic dominates it; (in) every PathD/PathsD/RectD input reaches 64-bit code only through ScalePath(s)DToPath(s)64/ScaleRectD with this call's scale, delta and arc tolerance are multiplied by it, the miter limit is not; (out) every PathD/PathsD result is ScalePath(s)64ToPath(s)D(x, 1/scale) with the same scale (or delegated to another D entry point); (round) the quantiser rounds coord*scale to an integer axis by axis and rectangles use the same quantiser; (same) after removing scaling and validation the wrapper calls exactly what its 64-bit sibling calls, with the same constants. Also: (descale) ScalePath64ToPathD produces every coordinate through the decimal library, with no float product or quotient of a converted coordinate. Does NOT decide bit-exact equality of the decimal round trip or float overflow at the domain edge.",
+		explanation: "Decides structural clauses of C07 for every D entry point (enumerated by type): (prec) the precision that reaches math.Pow(10,p) is the caller's value unmodified (a constant 2 only when the optional argument is absent) and a [-8,8] range check with the ErrPrecisionRange panic dominates it; (in) every PathD/PathsD/RectD input reaches 64-bit code only through ScalePath(s)DToPath(s)64/ScaleRectD with this call's scale, delta and arc tolerance are multiplied by it, the miter limit is not; (out) every PathD/PathsD result is ScalePath(s)64ToPath(s)D(x, 1/scale) with the same scale (or delegated to another D entry point); (round) the quantiser rounds coord*scale to an integer axis by axis and rectangles use the same quantiser; (same) after removing scaling and validation the wrapper calls exactly what its 64-bit sibling calls, with the same constants. Also: (descale) ScalePath64ToPathD produces every coordinate through the decimal library, with no float product or quotient of a converted coordinate. Does NOT decide bit-exact equality of the decimal round trip or float overflow at the domain edge. Also (after-options): where the caller's options are applied to the option struct, 10^p is computed from the struct's precision read after the last option call.",
 		notDecided:  []string{"bit-exactness of ScalePath64ToPathD's decimal multiplication", "float overflow when |coord|*10^p leaves the integer domain", "behaviour of caller-supplied scale functions (*WithScaleFunc)"},
 		rules: []func(*Ctx){
 			ruleDescaleExact("C07.descale", []string{"ScalePath64ToPathD"}), ruleScale("C07"), ruleQuantiserReturns("C07.round.returns")},
@@ -178,7 +178,7 @@ func init() {
 func init() {
 	register(&propDef{
 		id:          "C05",
-		explanation: "Decides structural clauses of C05: (join) offsetPoint's dispatch over JoinType builds exactly the constructor set of the property's table (Miter: miter or square by the limit test; Square: square; Bevel: bevel; Round: arc; the near-straight shortcut uses doMiter only for non-round joins; the concave arm emits perp(prev), vertex, perp(curr)); (sign) groupDelta is -delta / +delta / |delta| by (end type, pathsReversed), arcs turn with the sign of groupDelta, NewGroup strips duplicates with the right closed flag and takes the orientation from the path owning the lowest vertex; (union) the clean-up is Execute(Union, reversed ? Negative : Positive) with reverseSolution = ReverseSolution != reversed; (small) |delta| < 0.5 returns the stripped input before any constructor; (xy) every point constructed in offset.go pairs X with X and Y with Y (rotations exempted by name). Also: (arc-sign) every negation of stepSin is guarded by a test of groupDelta; (emit-all) each per-path offset routine hands a ring to the solution on every return path, or drops it only after examining its orientation; (ipt) intersectPoint's two vertical-line cases are mirror images. Does NOT decide any distance statement (band containment, k*delta bound, arc tolerance), over-shrinking or hole growth.",
+		explanation: "Decides structural clauses of C05: (join) offsetPoint's dispatch over JoinType builds exactly the constructor set of the property's table (Miter: miter or square by the limit test; Square: square; Bevel: bevel; Round: arc; the near-straight shortcut uses doMiter only for non-round joins; the concave arm emits perp(prev), vertex, perp(curr)); (sign) groupDelta is -delta / +delta / |delta| by (end type, pathsReversed), arcs turn with the sign of groupDelta, NewGroup strips duplicates with the right closed flag and takes the orientation from the path owning the lowest vertex; (union) the clean-up is Execute(Union, reversed ? Negative : Positive) with reverseSolution = ReverseSolution != reversed; (small) |delta| < 0.5 returns the stripped input before any constructor; (xy) every point constructed in offset.go pairs X with X and Y with Y (rotations exempted by name). Also: (arc-sign) every negation of stepSin is guarded by a test of groupDelta; (emit-all) each per-path offset routine hands a ring to the solution on every return path, or drops it only after examining its orientation; (ipt) intersectPoint's two vertical-line cases are mirror images. Does NOT decide any distance statement (band containment, k*delta bound, arc tolerance), over-shrinking or hole growth. Also: the running lowest point of the lowest-path scan starts at the sentinel {MaxInt64, MinInt64} or is compared only once a lowest point exists; the 'area already computed' memo is re-armed for every path.",
 		notDecided:  []string{"containment of the (delta - tol) band and the k*delta outer bound", "arc tolerance of round joins", "over-shrinking to empty, hole growth", "the numeric thresholds of the dispatch (0.999, mitLimSqr)"},
 		rules: []func(*Ctx){
 			ruleArcSignFollowsGroup("C05.arc-sign"),
@@ -198,7 +198,7 @@ func init() {
 func init() {
 	register(&propDef{
 		id:          "C15",
-		explanation: "Decides structural clauses of C15: (subseq) every vertex appended to the result is an element of the input path; (only) in the main scan a vertex is dropped exactly when isCollinear(last kept vertex, path[i], path[i+1]) holds; (wrap) each wrap-around scan of a closed path compares the moving vertex with a FIXED anchor on the other side of the start index; (open) an open path's last point is appended unconditionally; (pred) the collinearity predicate is exact: triSign is the sign function per cell and the products are 128-bit with no float detour; (limb) multiplyUInt64 returns a*b in two words (every partial product and carry used once at its weight, no intermediate overflow — a polynomial identity over split words) and productsAreEqual answers true only after comparing both words of both products, false only when one of those comparisons fails, and never compares a 64-bit product that may have wrapped. Does NOT decide 'no three consecutive collinear vertices remain', idempotence or the wrap-around bookkeeping as a whole.",
+		explanation: "Decides structural clauses of C15: (subseq) every vertex appended to the result is an element of the input path; (only) in the main scan a vertex is dropped exactly when isCollinear(last kept vertex, path[i], path[i+1]) holds; (wrap) each wrap-around scan of a closed path compares the moving vertex with a FIXED anchor on the other side of the start index; (open) an open path's last point is appended unconditionally; (pred) the collinearity predicate is exact: triSign is the sign function per cell and the products are 128-bit with no float detour; (limb) multiplyUInt64 returns a*b in two words (every partial product and carry used once at its weight, no intermediate overflow — a polynomial identity over split words) and productsAreEqual answers true only after comparing both words of both products, false only when one of those comparisons fails, and never compares a 64-bit product that may have wrapped. Does NOT decide 'no three consecutive collinear vertices remain', idempotence or the wrap-around bookkeeping as a whole. Also: the closing test of a closed path is (last KEPT vertex, final input vertex, first kept vertex); float64 equality is never relied on as exact equality of the 128-bit products.",
 		notDecided:  []string{"no three cyclically consecutive result vertices are collinear", "idempotence of trimming", "area and winding preservation (follow from the clauses above only if the wrap-around bookkeeping is right)", "result empty when fewer than 3 vertices remain"},
 		rules: []func(*Ctx){
 			ruleTrimCollinear("C15"), ruleTriSign("C15.pred"), ruleLimb("C15.limb", "isCollinear", "multiplyUInt64", "productsAreEqual"),
@@ -244,13 +244,14 @@ func init() {
 	})
 	register(&propDef{
 		id:          "C06",
-		explanation: "Decides structural clauses of C06: (mirror) in getNextLocation, getIntersection and getLocation the Right arm is the left/right mirror image of the Left arm, Bottom of Top, and Top the diagonal image of Left — the clipper is equivariant under the rectangle's symmetries; (corner-live) no addCorner/addCornerLocation call is constant-dead; (fast) pathBounds is the bounds of the current path, disjoint paths are skipped and contained paths are returned as the input path itself; (bounds) the bounds accumulators start at the right extremes with independent per-axis updates. Also: (wrap) the predecessor of vertex 0 is the last vertex; (retire) tidyEdgePair reads the index of the slot it empties before relabelling the ring; (lag) checkEdges seeds its lagging edge set with the cyclic predecessor. (skip-only) a path is skipped only on a length test or because its bounds miss the rectangle. Does NOT decide the crossing-history logic of executeInternal nor checkEdges/tidyEdgePair. Also (inside.strict): while copying interior vertices getNextLocation leaves the Inside state towards a side only on the STRICT comparison against that side's own edge (explored with helpers and getLocation read inline), so a vertex exactly on an edge stays inside.",
+		explanation: "Decides structural clauses of C06: (mirror) in getNextLocation, getIntersection and getLocation the Right arm is the left/right mirror image of the Left arm, Bottom of Top, and Top the diagonal image of Left — the clipper is equivariant under the rectangle's symmetries; (corner-live) no addCorner/addCornerLocation call is constant-dead; (fast) pathBounds is the bounds of the current path, disjoint paths are skipped and contained paths are returned as the input path itself; (bounds) the bounds accumulators start at the right extremes with independent per-axis updates. Also: (wrap) the predecessor of vertex 0 is the last vertex; (retire) tidyEdgePair reads the index of the slot it empties before relabelling the ring; (lag) checkEdges seeds its lagging edge set with the cyclic predecessor. (skip-only) a path is skipped only on a length test or because its bounds miss the rectangle. Does NOT decide the crossing-history logic of executeInternal nor checkEdges/tidyEdgePair. Also (inside.strict): while copying interior vertices getNextLocation leaves the Inside state towards a side only on the STRICT comparison against that side's own edge (explored with helpers and getLocation read inline), so a vertex exactly on an edge stays inside. Also (sibling.args): the polygon clipper and the line clipper hand segments to getIntersection in the same direction pattern.",
 		notDecided:  []string{"crossing-history logic of executeInternal (firstCross/startLocs bookkeeping)", "checkEdges / tidyEdgePair re-joining (tidyEdgePair tests horizontal overlap on vertical edges: only region-equivalent differences could be produced)", "1-unit rounding of intersection points"},
 		rules: []func(*Ctx){
 			ruleRectMirror("C06.mirror"),
 			ruleSegIntersectMirrorSem("C06.mirror.seg"),
 			ruleInsideArmMirror("C06.mirror.inside"),
 			ruleInsideArmStrict("C06.inside.strict"),
+			ruleIntersectionArgOrder("C06.sibling.args"),
 			ruleRetireBeforeRelabel("C06.retire"),
 			ruleRectSkipOnly("C06.skip-only", "(RectClip64).Execute", []string{"(RectClip64).executeInternal"}),
 			ruleCyclicPred("C06.wrap", []string{"(RectClip64).executeInternal"}, 1, "the polygon is closed: the edge entering vertex 0 starts at the LAST vertex; any other choice clips a segment that is not an edge of the input"),
